@@ -22,7 +22,11 @@ def call(g, a, b, C):
     elif not C and how == 1:
         out = bool(are_sigma_separated(gr, GG.V(a), GG.V(b), conditions=None))
     else:
-        out = bool(are_sigma_separated(gr, GG.V(a), GG.V(b), conditions=GG.present([GG.V(c) for c in C], (a, b))))
+        # cutoff: a bound on the path length that cannot bind (simple paths have at most n - 1 edges) must give the unbounded answer
+        kw = {}
+        if (zlib.crc32(repr((b, a, g)).encode()) >> 3) % 3 == 0:
+            kw["cutoff"] = len(g["nodes"]) - 1 + ((zlib.crc32(repr((a, b)).encode()) >> 5) % 3)
+        out = bool(are_sigma_separated(gr, GG.V(a), GG.V(b), conditions=GG.present([GG.V(c) for c in C], (a, b)), **kw))
     return out, GG.snapshot(gr) != before
 
 
